@@ -115,6 +115,17 @@ Example C09_hypotheses_satisfiable :
   end.
 Proof. vm_compute. split; reflexivity. Qed.
 
+(* C09: two live objects with separate mutable references sharing one coverage object *)
+Example C09_heap_hypotheses_satisfiable :
+  let h := mkheap Z (fun _ => 0) 6 in
+  let o1 := mkobj 0 1 2 in let o2 := mkobj 0 4 5 in
+  live Z h o1 /\ live Z h o2 /\ separate o1 o2 /\ o_cov o1 <> o_sp o1 /\ o_cov o1 <> o_meta o1 /\
+  no_mutable_sharing (prod_shares 1) = true /\ no_mutable_sharing (prod_shares 8) = false.
+Proof.
+  cbv zeta. split; [intros l Hl; cbn in Hl; cbn; lia|]. split; [intros l Hl; cbn in Hl; cbn; lia|].
+  split; [split; intros l Hl Hl2; cbn in Hl, Hl2; lia|]. cbn. repeat split; lia || reflexivity.
+Qed.
+
 Print Assumptions C09_result_binding_is_frame_preserving.
 Print Assumptions C09_single_argument_producers_leave_the_argument.
 Print Assumptions C09_mutation_is_invisible_through_a_separate_map.
@@ -123,3 +134,4 @@ Print Assumptions C09_interleaved_histories_stay_separate.
 Print Assumptions C09_result_without_mutable_sharing_is_isolated.
 Print Assumptions C09_only_the_field_view_shares_mutable_state.
 Print Assumptions C09_hypotheses_satisfiable.
+Print Assumptions C09_heap_hypotheses_satisfiable.
